@@ -20,17 +20,17 @@ def st(flavour, engine, cases, ops=60, shards=8, timeout=900, **extra):
     return d
 
 
-def world(qcases=4000, tcases=240000, miri=True, asan=True):
+def world(qcases=4000, tcases=800000, miri=True, asan=True):
     quick = [st("dbg", "world", qcases, 80, 8), st("rel", "world", qcases, 80, 8)]
     thorough = [
         st("dbg", "world", tcases, 80, 16, 3000),
         st("rel", "world", tcases, 120, 16, 3000),
-        st("rel", "world", 4000, 400, 16, 3000, long=1, max_live=24),
+        st("rel", "world", 12000, 400, 16, 3000, long=1, max_live=24),
     ]
     if miri:
         thorough.append(st("miri", "world", 48, 30, 16, 3000, lite=8))
     if asan:
-        thorough.append(st("asan", "world", 20000, 80, 16, 3000))
+        thorough.append(st("asan", "world", 60000, 80, 16, 3000))
     return {"quick": quick, "thorough": thorough}
 
 
@@ -38,7 +38,7 @@ def script(engine, path, args, timeout=3000):
     return {"flavour": "script", "engine": engine, "script": path, "args": args, "cases": 0, "timeout": timeout}
 
 
-def storage(prop, qcases=24000, tcases=800000, miri_q=False):
+def storage(prop, qcases=24000, tcases=2400000, miri_q=False):
     quick = [st("dbg", "storage", qcases, 70, 8), st("rel", "storage", qcases, 70, 8)]
     if miri_q:
         quick.append(st("miri", "storage", 17, 18, 17, 900, small=1, lite=6))
@@ -46,8 +46,8 @@ def storage(prop, qcases=24000, tcases=800000, miri_q=False):
         st("miri", "storage", 17 * 4, 24, 17, 3000, small=1, lite=6),
         st("dbg", "storage", tcases, 80, 16, 3000),
         st("rel", "storage", tcases, 80, 16, 3000),
-        st("rel", "storage", 3000, 60, 16, 3000, far=1),
-        st("asan", "storage", 30000, 70, 16, 3000),
+        st("rel", "storage", 9000, 60, 16, 3000, far=1),
+        st("asan", "storage", 120000, 70, 16, 3000),
     ]
     return quick, thorough
 
@@ -70,8 +70,8 @@ PLANS = {
     "C05": world(),
     "C06": {
         "quick": [st("dbg", "join", 1600, 12, 16), st("rel", "join", 1600, 12, 16)],
-        "thorough": [st("dbg", "join", 60000, 14, 16, 3000), st("rel", "join", 120000, 14, 16, 3000),
-                     st("rel", "join", 600, 10, 16, 3000, far=1), st("asan", "join", 6000, 12, 16, 3000),
+        "thorough": [st("dbg", "join", 160000, 14, 16, 3000), st("rel", "join", 320000, 14, 16, 3000),
+                     st("rel", "join", 1600, 10, 16, 3000, far=1), st("asan", "join", 16000, 12, 16, 3000),
                      st("miri", "join", 16, 4, 16, 3000, small=1)],
     },
     "C07": {
@@ -92,35 +92,35 @@ PLANS = {
     },
     "C11": {
         "quick": [st("dbg", "dispatch", 4000, 24, 8), st("rel", "dispatch", 4000, 24, 8)],
-        "thorough": [st("dbg", "dispatch", 40000, 24, 16, 3000), st("rel", "dispatch", 40000, 24, 16, 3000),
-                     st("tsan", "dispatch", 1600, 24, 8, 3000)],
+        "thorough": [st("dbg", "dispatch", 160000, 24, 16, 3000), st("rel", "dispatch", 160000, 24, 16, 3000),
+                     st("tsan", "dispatch", 8000, 24, 8, 3000)],
     },
     "C13": only_storage("C13"),
     "C14": {
         "quick": [st("dbg", "saveload", 12000, 60, 8), st("rel", "saveload", 12000, 60, 8)],
-        "thorough": [st("dbg", "saveload", 200000, 60, 16, 3000), st("rel", "saveload", 200000, 60, 16, 3000)],
+        "thorough": [st("dbg", "saveload", 800000, 60, 16, 3000), st("rel", "saveload", 800000, 60, 16, 3000)],
     },
     "C15": {
         "quick": [st("dbg", "saveload", 12000, 60, 8), st("rel", "saveload", 12000, 60, 8)],
-        "thorough": [st("dbg", "saveload", 200000, 60, 16, 3000), st("rel", "saveload", 200000, 200, 16, 3000)],
+        "thorough": [st("dbg", "saveload", 600000, 60, 16, 3000), st("rel", "saveload", 300000, 200, 16, 3000)],
     },
     "C16": {
         "quick": [st("dbg", "changeset", 16000, 14, 8), st("rel", "changeset", 16000, 14, 8)],
-        "thorough": [st("dbg", "changeset", 400000, 16, 16, 3000), st("rel", "changeset", 400000, 16, 16, 3000),
-                     st("asan", "changeset", 40000, 14, 16, 3000), st("miri", "changeset", 48, 8, 16, 3000)],
+        "thorough": [st("dbg", "changeset", 1600000, 16, 16, 3000), st("rel", "changeset", 1600000, 16, 16, 3000),
+                     st("asan", "changeset", 160000, 14, 16, 3000), st("miri", "changeset", 48, 8, 16, 3000)],
     },
     "C17": world(miri=False, asan=False),
     "C19": {
         "quick": [st("dbg", "panicdrop", 2992, 12, 8), st("rel", "panicdrop", 2992, 12, 8),
                   st("miri", "panicdrop", 34, 3, 17, 900)],
-        "thorough": [st("dbg", "panicdrop", 1496 * 40, 12, 16, 3000), st("rel", "panicdrop", 1496 * 40, 12, 16, 3000),
-                     st("rel", "panicdrop", 1496 * 8, 12, 16, 3000, big=1), st("asan", "panicdrop", 1496 * 8, 12, 16, 3000, asan_leaks=0),
+        "thorough": [st("dbg", "panicdrop", 1496 * 160, 12, 16, 3000), st("rel", "panicdrop", 1496 * 160, 12, 16, 3000),
+                     st("rel", "panicdrop", 1496 * 40, 12, 16, 3000, big=1), st("asan", "panicdrop", 1496 * 8, 12, 16, 3000, asan_leaks=0),
                      st("miri", "panicdrop", 187 * 2, 4, 17, 3000)],
     },
     "C20": {
         "quick": [st("dbg", "det", 2400, 60, 4, compare="x"), st("dbg", "det", 2400, 60, 4, compare="x"),
                   st("rel", "det", 2400, 60, 4, compare="x"), st("rel", "det", 2400, 60, 4, compare="x")],
-        "thorough": [st(f, "det", 160000, 80, 8, 3000, compare="x") for f in ("dbg", "dbg", "dbg", "dbg", "rel", "rel", "rel", "rel")]
+        "thorough": [st(f, "det", 320000, 80, 8, 3000, compare="x") for f in ("dbg", "dbg", "dbg", "dbg", "rel", "rel", "rel", "rel")]
                     + [st("asan", "det", 8000, 80, 8, 3000, compare="y"), st("dbg", "det", 8000, 80, 8, 3000, compare="y")],
     },
     "C18": {
